@@ -101,8 +101,64 @@ def run_case(ctx, cmd, timeout, expect_status, expect_rc, expect_out=None, expec
                      dict(cmd=cmd[:3], label=label))
 
 
+STUBBORN = ("import os, signal, sys, time\nsignal.signal(signal.SIGTERM, signal.SIG_IGN)\nsignal.signal(signal.SIGINT, signal.SIG_IGN)\n"
+            "open(sys.argv[1], 'w').write(str(os.getpid()))\nos.write(1, b'out before the limit'); os.write(2, b'err')\ntime.sleep(25)\n")
+
+
+def stubborn_child(ctx):
+    """a child that ignores SIGTERM/SIGINT and sleeps past the limit: the runner must be back soon after the limit with
+    TIMEOUT, the child must be gone and its output captured (only SIGKILL ends such a child)"""
+    import signal
+    from lithium.interestingness import timed_run
+
+    class Blocked(Exception):
+        pass
+
+    def on_alarm(signum, frame):
+        raise Blocked()
+
+    script = str(loaders.scratch() / "c18_stubborn.py")
+    open(script, "w").write(STUBBORN)
+    for mode in ("pipe", "file"):
+        pidfile = loaders.scratch() / f"c18-stubborn-{mode}.pid"
+        if pidfile.exists():
+            pidfile.unlink()
+        prefix = None if mode == "pipe" else str(loaders.scratch() / f"c18-stubborn-{os.getpid()}")
+        case = dict(cmd=["python", "c18_stubborn.py"], timeout=1, mode=mode, label="stubborn-child")
+        old = signal.signal(signal.SIGALRM, on_alarm)
+        signal.setitimer(signal.ITIMER_REAL, 8.0)
+        rd = None
+        try:
+            rd = timed_run.timed_run([sys.executable, script, str(pidfile)], 1, prefix)
+        except Blocked:
+            ctx.fail("runner-blocked", f"stubborn-child/{mode}: timed_run was not back 8 s after a 1 s limit (the child ignores SIGTERM)", case)
+        except Exception as exc:  # pylint: disable=broad-except
+            ctx.fail("timed-run-raises", f"stubborn-child/{mode}: timed_run raised {type(exc).__name__}: {exc}", case)
+        finally:
+            signal.setitimer(signal.ITIMER_REAL, 0)
+            signal.signal(signal.SIGALRM, old)
+        ctx.evaluations += 1
+        ctx.bump("stubborn-child")
+        pid = int(pidfile.read_text()) if pidfile.exists() and pidfile.read_text().strip() else None
+        if rd is not None:
+            if rd.status.name != "TIMEOUT" or rd.return_code is not None:
+                ctx.fail("status", f"stubborn-child/{mode}: status {rd.status.name}, return_code {rd.return_code}", case)
+            out = rd.out if mode == "pipe" else open(rd.out, "rb").read()
+            if out != b"out before the limit":
+                ctx.fail("stdout", f"stubborn-child/{mode}: captured {out!r}", case)
+            if pid is not None and alive(pid):
+                ctx.fail("child-alive", f"stubborn-child/{mode}: child {pid} still exists after timed_run returned", case)
+            ctx.nontriv("stubborn-child", mode)
+        if pid is not None and alive(pid):
+            try:
+                os.kill(pid, signal.SIGKILL)
+            except ProcessLookupError:
+                pass
+
+
 def run(ctx) -> int:
     proof = common.proof_stage(ctx.pid)
+    stubborn_child(ctx)
     sh = "/bin/sh"
     codes = range(0, 256)
     for n in codes:
